@@ -204,7 +204,8 @@ def fileSeekOFS : (fuel : Nat) → FileH → Nat → Prog (RC × FileH)
   | 0, _, _ => fault (.outOfFuel "adfFileSeekOFS")
   | fuel+1, h, pos => do
     let vc ← getVolCfg h.vol
-    let (_, h) ← fileSeekStart h
+    let (rc, h) ← fileSeekStart h
+    if rc ≠ rcOK then return (rc, h)
     let p := min pos h.byteSize
     let h := { h with pos := p }
     if p = h.byteSize then fileSeekEOF fuel h
